@@ -1,4 +1,6 @@
 """C05 -- pause/play is transparent: nothing runs while paused, no step lost or repeated."""
+import itertools
+
 from pv import judges, lifecycle, plans, programs
 
 ID = 'C05'
@@ -14,15 +16,17 @@ ASSUMPTIONS = ['programs depend only on their arguments (deterministic)', 'expec
 REQUIRED = ['calls_on_terminated', 'step_entries', 'pause_live', 'play_while_paused', 'pause_phase/running-step', 'pause_phase/waiting-step', 'pause_phase/between-steps-or-unstarted',
             'trace_compared']
 ALPHABET = [['pause', 'p'], ['pause', None], ['play'], ['resume', ['v']], ['resume', None]]
-BOUNDS = {'quick': 'basic program family, K<=2 exhaustive, K=3 exhaustive over {pause,play}', 'thorough': '+ 40 random programs, K=3/4 sampled, listener-issued pause/play'}
+BOUNDS = {'quick': 'basic program family, K<=2 exhaustive, K=3 exhaustive over {pause,play}', 'thorough': 'K=3 exhaustive on 4 key programs, + 40 random programs, K=3/4 sampled, listener-issued pause/play'}
 
 
 def _relevant(plan):
     return any(e['act'][0] in ('pause', 'play') for e in plan)
 
 
+DEEP = ('wait_async', 'cont_async', 'out_async', 'wait2')  # thorough: K=3 exhaustive on these
+
+
 def gen_cases(tier, seed):
-    cases = []
     progs = {k: v for k, v in programs.basic_programs().items()}
     rng = plans.rng_for(seed, 'c05')
     for n in range(40 if tier == 'thorough' else 6):
@@ -41,17 +45,19 @@ def gen_cases(tier, seed):
                     for s in range(0, n + 1):
                         for other in (['pause', 'p'], ['play']):
                             plist.append([{'at': s, 'act': other}, {'at': ['listener', ev, 1], 'act': act}])
-        for i, plan in enumerate(plist):
-            cases.append({'name': name, 'program': prog, 'plan': plans.uniq(plan, 'q%d' % i), 'drain': True, 'probe': False,
-                          'barrage': False, 'listener': True})
+        deep = ()
+        if tier == 'thorough' and name in DEEP:
+            deep = (p for p in plans.all_placements(n, [['pause', 'p'], ['play'], ['resume', ['v']]], 3) if _relevant(p))
+        for i, plan in enumerate(itertools.chain(plist, deep)):
+            yield {'name': name, 'program': prog, 'plan': plans.uniq(plan, 'q%d' % i), 'drain': True, 'probe': False,
+                          'barrage': False, 'listener': True}
         # pause()/play() never raise -- also not on a process that was killed (while paused, pausing, ...) or otherwise terminated:
         # one pause + one kill at every pair of slots, then every control call again on the terminated process
         for p in plans.all_placements(n, [['pause', 'p'], ['kill', 'k'], ['play']], 2):
             kinds = [e['act'][0] for e in p]
             if 'kill' in kinds and kinds != ['kill', 'kill']:
-                cases.append({'name': name, 'program': prog, 'plan': plans.uniq(p, 'k'), 'drain': True, 'probe': False,
-                              'barrage': True, 'barrage_skip': ['fail', 'soon_raise', 'cancel_future'], 'listener': True, 'no_trace': True})
-    return cases
+                yield {'name': name, 'program': prog, 'plan': plans.uniq(p, 'k'), 'drain': True, 'probe': False,
+                              'barrage': True, 'barrage_skip': ['fail', 'soon_raise', 'cancel_future'], 'listener': True, 'no_trace': True}
 
 
 def run_case(case):
